@@ -27,9 +27,32 @@ def import_maflib():
     want = os.path.realpath(os.path.join(REPO, "maflib"))
     assert real == want, "maflib imported from %s, expected %s" % (real, want)
     import logging
-    logging.getLogger("maflib").setLevel(logging.CRITICAL + 10)
-    logging.disable(logging.CRITICAL)
+    import maflib.logger  # noqa  (installs the library's stderr handler; replaced below)
+    lg = logging.getLogger("maflib")
+    for h in list(lg.handlers):          # drop the library's stderr handler
+        lg.removeHandler(h)
+    lg.setLevel(logging.DEBUG)
+    lg.propagate = False
+    if not any(isinstance(h, _Capture) for h in lg.handlers):
+        lg.addHandler(CAPTURE)
     return maflib
+
+
+import logging as _logging
+
+
+class _Capture(_logging.Handler):
+    """Collects every record emitted on the `maflib` logger tree."""
+
+    def __init__(self):
+        super().__init__(level=_logging.DEBUG)
+        self.records = []
+
+    def emit(self, record):
+        self.records.append((record.name, record.levelname, record.getMessage()))
+
+
+CAPTURE = _Capture()
 
 
 # ------------------------------------------------------------------ values
